@@ -122,6 +122,7 @@ func main() {
 		replaced := []string{} // arguments of strings.NewReplacer (none: the prefix is not built with a replacer)
 		prefixExpr := "unrecognised: no prefix assignment"
 		restrictedCond := "unrecognised: no restricted test"
+		qualify := []string{} // the pre-population of `imports` and the body of the `qualify` closure
 		usePkg := []string{}
 		gc := common.FindFunc(f, "Extractor", "genContent")
 		if gc == nil {
@@ -161,14 +162,31 @@ func main() {
 				}
 				return true
 			})
-			// the usePkg computation: top-level statements of genContent that assign usePkg
+			// the usePkg computation: top-level statements of genContent that assign usePkg;
+			// the import bookkeeping: the loop over p.Imports() and the closure `qualify`
 			for _, st := range gc.Body.List {
 				switch st := st.(type) {
 				case *ast.AssignStmt:
 					if len(st.Lhs) == 1 && text(st.Lhs[0]) == "usePkg" {
 						usePkg = append(usePkg, text(st))
 					}
+					if len(st.Lhs) == 1 && len(st.Rhs) == 1 && text(st.Lhs[0]) == "qualify" {
+						if fl, ok := st.Rhs[0].(*ast.FuncLit); ok {
+							for _, bs := range fl.Body.List {
+								if is, ok := bs.(*ast.IfStmt); ok && is.Else == nil {
+									qualify = append(qualify, "if "+ifText(is, is.Body.List))
+								} else {
+									qualify = append(qualify, text(bs))
+								}
+							}
+						} else {
+							qualify = append(qualify, "unrecognised: qualify is not a function literal")
+						}
+					}
 				case *ast.RangeStmt:
+					if text(st.X) == "p.Imports()" {
+						qualify = append(qualify, "range "+text(st.Key)+", "+text(st.Value)+" "+text(st.X)+" => "+strings.Join(stmts(st.Body.List), "; "))
+					}
 					if strings.Contains(text(st.Body), "usePkg") {
 						usePkg = append(usePkg, "range "+text(st.Key)+", "+text(st.Value)+" "+text(st.X)+" => "+strings.Join(stmts(st.Body.List), "; "))
 					}
@@ -444,6 +462,7 @@ def facts : Facts :=
     restrictedCond := %s,
     usePkg := %s,
     fixComplex := %s,
+    qualify := %s,
     tmpl := %s,
     defaultMinor := %s }
 /-- fingerprints of the functions (and of the template text) that Model/Extract.lean transcribes -/
@@ -454,6 +473,6 @@ end YaegiVerif.Generated.C18
 			common.LeanStrList(skips), common.LeanStr(vCond), common.LeanStrList(vThen), common.LeanStrList(vElse),
 			common.LeanStrList(methodStmts), leanPairs(fixCases), common.LeanStrList(fixFloat), common.LeanStr(fixFormat),
 			common.LeanStrList(replaced), common.LeanStr(prefixExpr), common.LeanStr(restrictedCond), common.LeanStrList(usePkg),
-			common.LeanStrList(fixComplex), leanPairs(tmpl), defMinor, hashes), nil
+			common.LeanStrList(fixComplex), common.LeanStrList(qualify), leanPairs(tmpl), defMinor, hashes), nil
 	})
 }
